@@ -293,6 +293,10 @@ func (n *Node) setup(logDir string, requestID string) error {
 	// node (a retry) has already been torn down.
 	n.done = false
 
+	// Nor has the new attempt finished: the finishing time of an earlier
+	// attempt must not make the step look ended to a stop request.
+	n.data.State.FinishedAt = time.Time{}
+
 	// Set the log file path
 	n.data.State.StartedAt = time.Now()
 	n.data.State.Log = filepath.Join(logDir, fmt.Sprintf("%s.%s.%s.log",
